@@ -13,7 +13,7 @@ open HC HC.Codec HC.Flat HC.Tree HC.RefTree HC.RefProof HC.Offsets HC.TreeStore 
   HC.BitfieldPages HC.OplogBytes HC.FormatLimits HC.Touch HC.Persist
 
 structure Durable (C : Crypto) (d : Disk) (hf : Header) (a0 : Abs) (es : List Entry) (a : Abs) : Prop where
-  log : ∃ ost ops, Oplog.openLog none d.oplog.toList = .ok ⟨ost, hf, ops, es⟩ ∧ ∀ op ∈ ops, op.store = .oplog
+  oplog : OpImage d.oplog hf es
   hfLen : hf.tree.length = a0.blocks.size
   hfSig : hf.tree.signature = [] ∨ hf.tree.signature.length = 64
   hfSecret : hf.secret.isSome = true
@@ -35,7 +35,7 @@ structure Durable (C : Crypto) (d : Disk) (hf : Header) (a0 : Abs) (es : List En
 /-- **opening durable stores yields a core that represents the log** -/
 theorem durable_open (C : Crypto) (hC : HashWF C) (hTw : TreeWF C) (d : Disk) (hf : Header) (a0 : Abs) (es : List Entry) (a : Abs)
     (h : Durable C d hf a0 es a) : ∃ c' j, Core.openCore C none d = .ok (c', j) ∧ Rep C c' (d.applyAll j) a := by
-  obtain ⟨ost, ops, hlog, hops⟩ := h.log
+  obtain ⟨ost, ops, hlog, hops, _⟩ := opimage_open _ hf es h.oplog
   obtain ⟨sk, hsk⟩ := Option.isSome_iff_exists.mp h.hfSecret
   obtain ⟨c', ho, hr⟩ := Reopen.reopen_refines C hC hTw d ost hf es a0 a sk ops hops hlog h.hfLen h.hfSig hsk h.hfShape h.oks h.fileNodes h.stable h.kept
     h.low h.below h.held0Lt h.contig h.small0 h.trace h.data
@@ -47,7 +47,7 @@ theorem durable_congr (C : Crypto) (d d' : Disk) (hf : Header) (a0 : Abs) (es : 
     (hdata : ∀ i, a.held i = true → ∀ k, k < sz a.blocks i →
       psum a.blocks i + k < d'.data.size ∧ d'.data.byte (psum a.blocks i + k) = (a.blocks.getD i []).getD k 0) :
     Durable C d' hf a0 es a :=
-  { log := by rw [ho]; exact h.log
+  { oplog := by rw [ho]; exact h.oplog
     hfLen := h.hfLen
     hfSig := h.hfSig
     hfSecret := h.hfSecret
@@ -68,12 +68,11 @@ theorem durable_congr (C : Crypto) (d d' : Disk) (hf : Header) (a0 : Abs) (es : 
 /-- the stores of a live core are durable -/
 theorem persist_durable (C : Crypto) (c : Core) (d : Disk) (hf : Header) (a0 : Abs) (es : List Entry) (a : Abs)
     (hrep : Rep C c d a) (hp : Persist C c d hf a0 es a) : Durable C d hf a0 es a := by
-  obtain ⟨ost, hlog, _, _⟩ := opinv_open c.oplog _ hf es hp.oplog
   have hoks : ∀ e ∈ es, EntryOK e := by
     obtain ⟨_, _, _, _, _, _, _, _, _, _, hok⟩ := hp.oplog
     exact hok
   exact {
-    log := ⟨ost, [], hlog, fun op hop => by cases hop⟩
+    oplog := Or.inl ⟨c.oplog, hp.oplog⟩
     hfLen := hp.hfLen
     hfSig := hp.hfSig
     hfSecret := by rw [hp.hfSecret]; exact hrep.writer
@@ -81,17 +80,69 @@ theorem persist_durable (C : Crypto) (c : Core) (d : Disk) (hf : Header) (a0 : A
     oks := hoks
     fileNodes := hp.fileNodes
     fileSize := hp.fileSize
-    stable := fun i _ => hp.fileBits i
-    kept := fun i hh => Or.inl (by rw [hp.fileBits]; exact hh)
-    low := fun i _ hh => by rw [hp.fileBits]; exact hh
-    below := fun i hi => by
-      rw [hp.fileBits] at hi
-      exact Nat.lt_of_lt_of_le (hp.held0Lt i hi) (trace_size_le C a0 a es hp.trace)
+    stable := hp.stable
+    kept := hp.kept
+    low := hp.low
+    below := hp.below
     held0Lt := hp.held0Lt
-    contig := ⟨fun i hi => by rw [← hp.fileBits]; exact hp.hfContig.1 i hi, by rw [← hp.fileBits]; exact hp.hfContig.2⟩
+    contig := hp.hfContig
     small0 := hp.small0
     trace := hp.trace
     data := hrep.data }
+
+/-- **recovery re-establishes both invariants**: opening durable stores yields a core that represents the
+    log and satisfies the ghost invariant again (for the stores as `Hypercore::new` leaves them), so it
+    can be used, closed, reopened and crashed again. -/
+theorem recover_persist (C : Crypto) (hC : HashWF C) (hTw : TreeWF C) (d : Disk) (hf : Header) (a0 : Abs) (es : List Entry) (a : Abs)
+    (h : Durable C d hf a0 es a) :
+    ∃ c' j, Core.openCore C none d = .ok (c', j) ∧ Rep C c' (d.applyAll j) a ∧ Persist C c' (d.applyAll j) hf a0 es a := by
+  obtain ⟨ost, ops, hlog, hops, hopinv⟩ := opimage_open _ hf es h.oplog
+  obtain ⟨h', t', b', hopen, hinv, hs'⟩ := Reopen.reopen_full C hC hTw d ost hf es a0 a ops hops hlog h.hfLen h.hfSig
+    h.hfShape h.oks h.fileNodes h.stable h.kept h.low h.below h.held0Lt h.contig h.small0 h.trace
+  obtain ⟨hbits', hfm'⟩ := Reopen.rinv_final C t' b' h' d.tree d.bitfield a _ hinv
+  have hd1t : (d.applyAll ops).tree = d.tree := tree_of_applyAll _ _ (fun op hop => by rw [hops op hop]; decide)
+  have hd1d : (d.applyAll ops).data = d.data := data_of_applyAll _ _ (fun op hop => by rw [hops op hop]; decide)
+  have hd1b : (d.applyAll ops).bitfield = d.bitfield := by
+    have := Journal.applyAll_other d ops .bitfield (fun op hop => by rw [hops op hop]; decide)
+    simpa [Disk.get] using this
+  have hd1o : (d.applyAll ops).oplog = ops.foldl (fun g op => op.onFile g) d.oplog := by
+    have := applyAll_last_only d [] ops .oplog (fun op hop => by cases hop) hops
+    simpa [Disk.get] using this
+  refine ⟨_, ops, hopen, ?_, ?_⟩
+  · exact {
+      writer := by
+        show h'.secret.isSome = true
+        rw [hs']; exact h.hfSecret
+      tree := hinv.tree
+      nodes := by rw [hd1t]; exact hinv.nodes
+      mapwf := hinv.mapwf
+      bits := hbits'
+      heldLt := hinv.heldLt
+      contig := hfm'
+      data := by rw [hd1d]; exact h.data
+      small := trace_small C a0 a es h.trace h.small0 }
+  · exact {
+      trace := h.trace
+      small0 := h.small0
+      fileNodes := by rw [hd1t]; exact h.fileNodes
+      stable := by rw [hd1b]; exact h.stable
+      kept := by rw [hd1b]; exact h.kept
+      low := by rw [hd1b]; exact h.low
+      below := by rw [hd1b]; exact h.below
+      fileSize := by rw [hd1b]; exact h.fileSize
+      held0Lt := h.held0Lt
+      hfLen := h.hfLen
+      hfSig := h.hfSig
+      hfSecret := hs'.symm
+      hfContig := h.contig
+      dirty := by rw [hd1b]; exact hinv.dirty
+      hdrLen := hinv.hdrLen
+      hdrSig := hinv.hdrSig
+      hdrSecret := rfl
+      oplog := by rw [hd1o]; exact hopinv
+      shape := hinv.shape
+      forkU := hinv.forkU
+      hfShape := h.hfShape }
 
 /-! ### a flush, cut anywhere -/
 
@@ -103,7 +154,7 @@ theorem durable_pages (C : Crypto) (d d' : Disk) (hf : Header) (a0 : Abs) (es : 
   obtain ⟨g1, g2⟩ := writePages_bits b d.bitfield h.fileSize ps
   have hlt := trace_heldLt C a0 a es h.trace h.held0Lt
   exact {
-    log := by rw [ho]; exact h.log
+    oplog := by rw [ho]; exact h.oplog
     hfLen := h.hfLen
     hfSig := h.hfSig
     hfSecret := h.hfSecret
@@ -220,7 +271,7 @@ theorem durable_slots (C : Crypto) (d d' : Disk) (hf : Header) (a0 : Abs) (es : 
       exact flushList_mem t hwf n (List.mem_of_mem_take hn)
     · exact (flushList_distinct t hwf).sublist (List.take_sublist k _)
   exact {
-    log := by rw [ho]; exact h.log
+    oplog := by rw [ho]; exact h.oplog
     hfLen := h.hfLen
     hfSig := h.hfSig
     hfSecret := h.hfSecret
@@ -347,8 +398,6 @@ theorem crash_flush (C : Crypto) (hC : HashWF C) (c : Core) (d : Disk) (hf : Hea
           have := applyAll_last_only d2 [] (O.take 1) .oplog (fun op hop => by cases hop) hOs
           simp only [List.nil_append, Disk.get] at this
           rw [this, hd2op]
-        obtain ⟨ost, oo, hopen, hoo⟩ := opinv_flush_mid c.oplog d.oplog hf es c.header hp.oplog (headerOK_of_shape _ hp.shape)
-        rw [hO] at hopen
         obtain ⟨hf', a0', es', hp'⟩ := hfull
         -- after a complete flush the side stores hold the current log; the header write does not touch them
         have hdurf := persist_durable C _ _ hf' a0' es' a hrepf hp'
@@ -383,7 +432,7 @@ theorem crash_flush (C : Crypto) (hC : HashWF C) (c : Core) (d : Disk) (hf : Hea
           rw [← f1 dd o hb]
           exact node?_congr _ _ _ _ rfl
         exact {
-          log := by rw [hd3op]; exact ⟨ost, oo, hopen, hoo⟩
+          oplog := Or.inr ⟨c.oplog, d.oplog, hf, es, hp.oplog, headerOK_of_shape _ hp.shape, rfl, by rw [hd3op, hO]⟩
           hfLen := hp.hdrLen
           hfSig := hp.hdrSig
           hfSecret := by rw [hp.hdrSecret]; exact hrep.writer
